@@ -67,7 +67,7 @@ def _replay(rep, r):
 def run(tier, seed):
     return run_property(
         "C06", tier, seed, level="other",
-        deductive=[("c01_step", r"C06\.I1prime\.layout|C12\.OWNG\.(distinct|owner)"), ("c06_getter", None), ("c07_clear", r"C06\.pull"), ("c14_seed", r"\.C06\.layout")],
+        deductive=[("c01_step", r"C06\.I1prime\.layout|C12\.OWNG\.(distinct|owner)|no_other_exception"), ("c06_getter", None), ("c07_clear", r"C06\.pull"), ("c14_seed", r"\.C06\.layout")],
         bounded=[("graph_bounded.py", ["--check", "C06"])],
         replay=_replay,
         trusted=[
